@@ -18,10 +18,10 @@ AllowZero == IOEnv.GEN_ZERO = "1"      \* also emit flows that leave some edges 
 Part  == atoi(IOEnv.GEN_PART)      \* this process handles shapes with index = Part (mod Parts)
 Parts == atoi(IOEnv.GEN_PARTS)
 
-AllShapes == IF Kind = "dag" THEN DAGShapes(N) ELSE CycShapes(N, MaxE)
+AllShapes == IF Kind = "dag" THEN DAGShapes(N) ELSE IF Kind = "motif" THEN MotifShapes ELSE CycShapes(N, MaxE)
 Shapes == LET s == SetToSeq(AllShapes) IN {s[i] : i \in {j \in 1..Len(s) : j % Parts = Part}}
 
-RoutesOf(G) == IF Kind = "dag" THEN STPaths(G) ELSE STWalks(G, Cardinality(G.edges) + L)
+RoutesOf(G) == IF Kind = "dag" \/ (Kind = "motif" /\ IsDAG(G)) THEN STPaths(G) ELSE STWalks(G, Cardinality(G.edges) + L)
 
 (* distinct positive planted flows of G, each with one witness planting *)
 PlantedOf(G) ==
